@@ -6,6 +6,7 @@ import (
 	"io"
 	"net"
 	"net/http"
+	"strings"
 	"time"
 )
 
@@ -107,14 +108,13 @@ func VerifRecordHellos(conns [][][]byte, cfg *tls.Config) []string {
 		if info, ok := ln.helloInfos[fmt.Sprintf("192.0.2.7:%d", 5000+i)]; ok {
 			out[i] = fmt.Sprintf("%+v", info)
 		}
-		ln.helloInfosMu.RUnlock()
-	}
-	// every connection is still open: what was recorded for an earlier one must not have changed meanwhile
-	for i := range conns {
-		ln.helloInfosMu.RLock()
-		if info, ok := ln.helloInfos[fmt.Sprintf("192.0.2.7:%d", 5000+i)]; ok {
-			if now := fmt.Sprintf("%+v", info); now != out[i] {
-				out[i] = "CHANGED-AFTER-LATER-CONNECTIONS: " + now + " (was " + out[i] + ")"
+		// every earlier connection is still open: what was recorded for it must not have changed meanwhile
+		// (checked after each connection: a later one may put the old bytes back)
+		for j := 0; j < i; j++ {
+			if info, ok := ln.helloInfos[fmt.Sprintf("192.0.2.7:%d", 5000+j)]; ok && !strings.HasPrefix(out[j], "CHANGED") {
+				if now := fmt.Sprintf("%+v", info); now != out[j] {
+					out[j] = fmt.Sprintf("CHANGED-AFTER-CONNECTION-%d: %s (was %s)", i+1, now, out[j])
+				}
 			}
 		}
 		ln.helloInfosMu.RUnlock()
